@@ -707,4 +707,112 @@ theorem C12_ndl_dataclass_list (n : Bool) (k : SeqK) (c : Nat) (x y : V) (rest :
       | _ => simpa [dataclassUnwrap] using h
     · cases v <;> simpa [dataclassUnwrap] using h
 
+/-! ## witnesses of the known defects, non-vacuity -/
+
+/-- builtins that know nothing (every call is outside the table) -/
+def P0 : Prims :=
+  { decode := fun _ _ => .ok "", strOf := fun _ => .unmodelled "-", floatOfStr := fun _ => .perr .valueError,
+    floatOfInt := fun _ => .unmodelled "-", floatOfDec := fun _ => .unmodelled "-", decOfStr := fun _ => .unmodelled "-",
+    decOfFloatRepr := fun _ => .unmodelled "-", complexOf := fun _ => .unmodelled "-", complexOf2 := fun _ _ => .unmodelled "-",
+    timestampOf := fun _ => .unmodelled "-", totalSeconds := fun _ => .unmodelled "-", div1000 := fun _ => .unmodelled "-",
+    utcFromTs := fun _ => .unmodelled "-", strptime := fun _ _ => .perr .valueError, timeFromIso := fun _ => .perr .valueError,
+    uuidOfStr := fun _ => .perr .valueError, jsonLoads := fun _ _ => .perr .jsonDecode, literalEval := fun _ => .perr .valueError,
+    parseQs := fun _ => .unmodelled "-", durationMatch := fun _ _ => .ok none, timedeltaKw := fun _ _ => .unmodelled "-",
+    timedeltaSec := fun _ => .unmodelled "-", initObj := fun _ _ => .perr .typeError }
+
+/-- the laws are satisfiable -/
+theorem P0_laws : PrimLaws P0 := ⟨fun _ _ h => h, fun _ => Or.inl rfl⟩
+
+def E0 : Env := ⟨[]⟩
+
+/-- `'5.1234567'` → timedelta: `float()` and `timedelta(seconds=…)` round to 5.123457 s, the duration regex
+cuts the fraction to 5.123456 s (what CPython answers; replayed on the real code as corpus witness) -/
+def Ptd : Prims :=
+  { P0 with
+    floatOfStr := fun _ => .ok (.fin 5768499565531513 (-50))
+    timedeltaSec := fun _ => .ok (.delta 0 5123457)
+    durationMatch := fun i s => if i == 0 && s == "5.1234567" then
+        .ok (some [("days", none), ("hours", none), ("minutes", none), ("seconds", some "5"), ("microseconds", some "123456")])
+      else .ok none
+    timedeltaKw := fun _ _ => .ok (.delta 0 5123456) }
+
+theorem C12_timedelta_numeric_string_witness :
+    ∃ (P : Prims) (E : Env) (v r r' : V), toTimedelta P E ⟨true, false⟩ 0 v = .ok r ∧
+      toTimedelta P E ⟨false, false⟩ 0 v = .ok r' ∧ r ≠ r' ∧ KnownDefect.timedeltaNumericString P E v = true :=
+  ⟨Ptd, E0, .str 0 "5.1234567", .delta 0 5123456, .delta 0 5123457, by rfl, by rfl, by simp, by rfl⟩
+
+theorem Ptd_laws : PrimLaws Ptd := ⟨fun _ _ h => h, fun _ => Or.inl rfl⟩
+
+/-- the full statement (C12_mono_partial without `hk`) is false of the unchanged code -/
+theorem C12_mono_full_fails :
+    ¬ ∀ (P : Prims) (_ : PrimLaws P) (E : Env) (u : Unresolved) (f : Flags) (t : Target) (v r : V),
+        transformU P E f u t v = .ok r → ∃ r', transformU P E ⟨false, false⟩ u t v = .ok r' ∧ sameValue r' r := by
+  intro H
+  obtain ⟨r', h1, h2⟩ := H Ptd Ptd_laws E0 .throw ⟨true, false⟩ (.cls .timedelta 0) (.str 0 "5.1234567")
+    (.delta 0 5123456) (by rfl)
+  have h3 : transformU Ptd E0 ⟨false, false⟩ .throw (.cls .timedelta 0) (.str 0 "5.1234567") = .ok (.delta 0 5123457) := by rfl
+  rw [h3] at h1
+  simp at h1
+  subst h1
+  rcases h2 with h2 | ⟨_, x, y, hx, _, _⟩
+  · simp at h2
+  · simp [num?] at hx
+
+/-- JSON text with a raw TAB inside a string: `strict=True` rejects it, `strict=False` reads `"\/"` as `/`,
+`ast.literal_eval` reads it as backslash + `/` -/
+def Pjs : Prims :=
+  { P0 with
+    jsonLoads := fun strict _ => if strict then .perr .jsonDecode else .ok (.dict 0 [(.str 0 "a", .str 0 "/\t")])
+    literalEval := fun _ => .ok (.dict 0 [(.str 0 "a", .str 0 "\\/\t")]) }
+
+theorem Pjs_laws : PrimLaws Pjs := ⟨fun _ _ h => h, fun _ => Or.inr ⟨rfl, _, rfl⟩⟩
+
+theorem C12_json_control_char_witness :
+    ∃ (P : Prims) (_ : PrimLaws P) (E : Env) (v r r' : V), toDict P E ⟨false, true⟩ 0 v = .ok r ∧
+      toDict P E ⟨false, false⟩ 0 v = .ok r' ∧ r ≠ r' ∧ KnownDefect.jsonControlChar P E v = true :=
+  ⟨Pjs, Pjs_laws, E0, .str 0 "{\"a\": \"\\/\t\"}", .dict 0 [(.str 0 "a", .str 0 "\\/\t")], .dict 0 [(.str 0 "a", .str 0 "/\t")],
+    by rfl, by rfl, by simp, by rfl⟩
+
+def Pcx : Prims := { P0 with complexOf := fun _ => .ok (.complex (.fin 1 0) (.fin 3 0)) }
+
+/-- under no_explicit_cast a str converts to complex although it is not in the number group -/
+theorem C12_complex_from_str_witness :
+    ∃ (P : Prims) (E : Env) (v r : V), transformU P E ⟨true, false⟩ .throw (.cls .complex 0) v = .ok r ∧
+      GroupOK .complex v = false ∧ KnownDefect.complexFromStr .complex v = true :=
+  ⟨Pcx, E0, .str 0 "1+3j", .complex (.fin 1 0) (.fin 3 0), by rfl, by rfl, by rfl⟩
+
+/-! non-vacuity: the hypotheses of the partial theorems are satisfiable together with a successful conversion -/
+
+example : ∃ (P : Prims) (_ : PrimLaws P) (E : Env) (f : Flags) (t : Target) (v r : V),
+    KnownDefect P E f t v = false ∧ OutsideProof E f t v = false ∧
+    (∀ w, transformU P E ⟨false, false⟩ .throw t v ≠ .unmodelled w) ∧ transformU P E f .throw t v = .ok r :=
+  ⟨P0, P0_laws, E0, ⟨true, true⟩, .cls .int 0, .float 0 (.fin 3 0), .int 0 3, by rfl, by rfl,
+    fun w h => by simp [show transformU P0 E0 ⟨false, false⟩ .throw (.cls .int 0) (.float 0 (.fin 3 0)) = .ok (.int 0 3) from rfl] at h,
+    by rfl⟩
+
+example : ∃ (P : Prims) (E : Env) (v r : V), KnownDefect.timedeltaNumericString P E v = false ∧
+    toTimedelta P E ⟨true, false⟩ 0 v = .ok r :=
+  ⟨{ Ptd with floatOfStr := fun _ => .perr .valueError, durationMatch := fun _ _ => .ok (some []) }, E0, .str 0 "P1D", .delta 0 5123456, by rfl, by rfl⟩
+
+example : ∃ (cv : Conv) (v : V), KnownDefect.complexFromStr cv v = false ∧ GroupOK cv v = true :=
+  ⟨.complex, .int 0 1, by rfl, by rfl⟩
+
+/-- the enum of the fixed finding `enum-name-shadows-value`: `class E(Enum): A = 'B'; B = 'C'` -/
+def Eab : Env := ⟨[{ memberType := none, members := [("A", .str 0 "B"), ("B", .str 0 "C")] }]⟩
+
+/-- after the fix `'B'` is member `A` (the one whose *value* is `'B'`) under every flag combination, and the
+member *name* still works where no value matches (`'A'` → member `A`, lenient only) -/
+theorem C12_enum_value_first :
+    (∀ n d, toEnum P0 Eab ⟨n, d⟩ 0 (.str 0 "B") = .ok (.enum 0 0)) ∧
+    toEnum P0 Eab ⟨false, false⟩ 0 (.str 0 "A") = .ok (.enum 0 0) ∧
+    toEnum P0 Eab ⟨false, true⟩ 0 (.str 0 "A") = .perr .valueError := by
+  refine ⟨fun n d => ?_, by rfl, by rfl⟩
+  cases n <;> cases d <;> rfl
+
+/-- after the fix `[{'a': 1, 'b': 2}]` becomes `{'a': 1, 'b': 2}` with and without no_data_loss -/
+theorem C12_dict_pairs_fixed :
+    ∀ d, toDict P0 E0 ⟨false, d⟩ 0 (.seq .list 0 [.dict 0 [(.str 0 "a", .int 0 1), (.str 0 "b", .int 0 2)]]) =
+      .ok (.dict 0 [(.str 0 "a", .int 0 1), (.str 0 "b", .int 0 2)]) := by
+  intro d; cases d <;> rfl
+
 end Utv.C12
